@@ -218,6 +218,13 @@ def run_case(case):
         ref_nf = nfref.nf_light(th, p["Q2"])
         b0, b1 = nfref.beta0(nf), nfref.beta1(nf)
         M = {l: sv.operators[(l, nf_)] for (l, nf_) in sv.operators if nf_ == nf}
+        for d_ in split.raw_labels[:pto]:
+            for l, fnc in d_.items():
+                if l not in M:
+                    # the run produced SV terms for this nf without ever building the splitting operator for it (a memo keyed
+                    # without nf would do that): build it with the code's own convolution so that the algebra can still be judged
+                    M[l] = conv.convolve_operator(fnc(nf), interp)[0]
+                    probes["memo_rebuilt"] = probes.get("memo_rebuilt", 0) + 1
         act = [q for q in range(1, nf + 1)] + [-q for q in range(1, nf + 1)]
         exp, scale = {}, {}
 
